@@ -134,7 +134,6 @@ class ExactGP(GP):
                             msg = "Cannot modify {attr} of inputs (expected {e_attr}, found {f_attr})."
                             msg = msg.format(attr=attr, e_attr=expected_attr, f_attr=found_attr)
                             raise RuntimeError(msg)
-            self.train_inputs = inputs
         if targets is not None:
             if strict:
                 for attr in {"shape", "dtype", "device"}:
@@ -144,6 +143,10 @@ class ExactGP(GP):
                         msg = "Cannot modify {attr} of targets (expected {e_attr}, found {f_attr})."
                         msg = msg.format(attr=attr, e_attr=expected_attr, f_attr=found_attr)
                         raise RuntimeError(msg)
+        # (assign only after both checks have passed: a refused call leaves the model and its caches as they were)
+        if inputs is not None:
+            self.train_inputs = inputs
+        if targets is not None:
             self.train_targets = targets
         self.prediction_strategy = None
 
